@@ -7,7 +7,8 @@ LP = "contracts.linalg_projector"
 def check(tier, seed):
     d = Decision("C17", tier, seed)
     t = 60000 if tier == "thorough" else 10000
-    d.add_units(run_units([(LP, "unit_projector", {"variant": v, "timeout_ms": t}) for v in ("left-none", "left-same", "left-other")]))
+    # the frame unit: applying the projector writes into nothing the caller can reach (its operand in particular) - `P v` is a value, not an update of v
+    d.add_units(run_units([(LP, "unit_projector", {"variant": v, "timeout_ms": t}) for v in ("left-none", "left-same", "left-other")] + [("contracts.frame", "unit_frame", {})]))
     d.assumptions += [
         "A-NP1: numpy `@`, `.conj()`, `.T`, `-` are matrix product, entry-wise conjugation, transposition and subtraction (free matrix algebra with two involutions)",
         "A-SC: scipy.sparse.linalg.LinearOperator and its composite operators dispatch matvec/matmat/rmatvec/rmatmat/adjoint/transpose/dot/+/@ to the "
@@ -21,4 +22,4 @@ def check(tier, seed):
                      "correspondingly transformed dense matrix; memoisation is consistent; the base class is initialised with shape (n,n) and the promoted "
                      "dtype; P P = P under L^H R = 1.")
     d.run_battery("bd_battery.py", ["projector", "batch_finding"], "n = 6, 2 vectors, real/complex and biorthogonal combinations, 9 views x 10 operator operations incl. scipy composites")
-    return d.finish(level="proof", trusted_base=["contracts/linalg_projector.py", "pyvc/matnf.py"])
+    return d.finish(level="proof", trusted_base=["contracts/linalg_projector.py", "contracts/frame.py", "pyvc/effects.py", "pyvc/matnf.py"])
